@@ -40,8 +40,12 @@ where
             while self.fill()? && self.core.match_by_line(self.rdr.buffer())? {
             }
         }
+        // When the search stops before the end of the input, the bytes of the
+        // current buffer that were already searched count too (as they do when
+        // searching a slice).
+        let searched = std::cmp::min(self.core.pos(), self.rdr.buffer().len());
         self.core.finish(
-            self.rdr.absolute_byte_offset(),
+            self.rdr.absolute_byte_offset() + searched as u64,
             self.rdr.binary_byte_offset(),
         )
     }
